@@ -151,6 +151,8 @@ def run_drive(binary, script_path, out_path, timeout=120, journal=None, extra=No
                     raise ToolError(f"driver failed without journal: {p.stdout[-2000:]}")
                 hung.append((idx, f"driver-died rc={p.returncode}"))
                 start = idx + 1
+                if len(hung) >= 4:
+                    break          # this shard's histories keep hanging: four reports are enough, do not wait for the rest
                 continue
             break
         except subprocess.TimeoutExpired:
@@ -161,6 +163,8 @@ def run_drive(binary, script_path, out_path, timeout=120, journal=None, extra=No
                 raise ToolError("driver timed out without journal")
             hung.append((idx, "hang"))
             start = idx + 1
+            if len(hung) >= 4:
+                break
     with open(out_path, "w") as out:
         for part in parts:
             if os.path.exists(part):
@@ -237,7 +241,7 @@ def script_hash(hist):
 
 
 def drive_and_validate(name, dictname, histories, spec="Trace_File", driver="drive", nshards=None,
-                       drive_timeout=180, tlc_timeout=1800, extra_script=None, keep=None, group_key=None,
+                       drive_timeout=1500, tlc_timeout=1800, extra_script=None, keep=None, group_key=None,
                        extra_specs=()):
     """Runs `histories` on the real library and validates every trace with TLC.
     Returns dict with failures (global history indices), hangs, counts.
